@@ -55,7 +55,7 @@ const crossTrunc = 64
 // intact tree is huge (one value per byte of a ROM image, ...) are passed over for
 // the next smallest candidate of the format.
 func seedCaps(r *core.Run) (maxBytes, maxValues int) {
-	return core.Pick(r, 64<<10, maxCorpusFile), core.Pick(r, 4096, 1<<18)
+	return core.Pick(r, 64<<10, 256<<10), core.Pick(r, 4096, 8192)
 }
 
 var debugTiming = os.Getenv("C06_TIMING") != ""
@@ -73,6 +73,7 @@ func formatNames() []string {
 }
 
 func run(r *core.Run) {
+	repoRoot = r.Repo
 	if p := os.Getenv("C06_CHILD_CASE"); p != "" {
 		childCase(p)
 		return
@@ -95,6 +96,7 @@ func run(r *core.Run) {
 	// 0. the oracle's own sanity (also what notices a recover that swallows everything)
 	if w.t.Counts["sentinel_cases"] == 0 || w.t.Counts["sentinel_ok"] == 0 {
 		if !w.sentinel() {
+			w.t.NotExh = append(w.t.NotExh, "the oracle's sentinel failed: nothing was enumerated")
 			return
 		}
 		w.t.Counts["sentinel_ok"] = 1
@@ -118,6 +120,7 @@ func run(r *core.Run) {
 		}
 		w.saveSeedCache(&seedCache{Seeds: seedMap, NFiles: nfiles, Skipped: skipped})
 	}
+	w.t.Counts["scan_done"] = 1
 	var seeds []*Seed
 	var noSeed []string
 	for _, f := range formats {
@@ -180,18 +183,23 @@ func run(r *core.Run) {
 			w.t.Counts[fmt.Sprintf("cut:%s:shard%02d", sec, r.ShardIdx)] = int64(ordinal) + 1 // +1: 0 means no cut
 			return
 		}
-		key := ""
-		if c.Seed != nil {
+		key, limit := "", w.wdSkipAfter
+		if c.Sec == "cross" {
+			// a decoder that loops when forced does so on most foreign inputs: counted per format
+			key, limit = "cross:"+c.Format, 3*w.wdSkipAfter
+		} else if c.Seed != nil {
 			key = fmt.Sprintf("%s:%s:%v", c.Seed.ID(), c.Format, c.Force)
-			if w.wdStops(key) >= w.wdSkipAfter {
-				// this (seed, configuration) keeps running into the watchdog (e.g. a forced
-				// decode looping on a count field): the rest of its grid is not run
-				if w.t.Counts["skipped_after_repeated_watchdog_stops"] == 0 {
-					w.t.NotExh = append(w.t.NotExh, fmt.Sprintf("after %d watchdog stops of one (seed, configuration) its remaining grid points are skipped (counter skipped_after_repeated_watchdog_stops)", w.wdSkipAfter))
-				}
-				w.t.Counts["skipped_after_repeated_watchdog_stops"]++
-				return
+		}
+		if key != "" && w.wdStops(key) >= limit {
+			// this (seed, configuration) / cross-format decoder keeps running into the
+			// watchdog (e.g. a forced decode looping on a count field): the rest of its
+			// cases are not run and the enumeration is reported as not exhaustive
+			if w.t.Counts["skipped_after_repeated_watchdog_stops"] == 0 {
+				w.t.NotExh = append(w.t.NotExh, fmt.Sprintf("after %d watchdog stops of one (seed, configuration), or %d of one forced format in the cross-format section, its remaining cases are skipped (counter skipped_after_repeated_watchdog_stops)", w.wdSkipAfter, 3*w.wdSkipAfter))
 			}
+			w.t.Counts["skipped_after_repeated_watchdog_stops"]++
+			w.t.Counts["skipped:"+key]++
+			return
 		}
 		w.curKey = key
 		t0 := cpuTime()
@@ -286,7 +294,7 @@ func run(r *core.Run) {
 			}
 		}
 	}
-	w.t.Counts[fmt.Sprintf("shards_reporting")]++
+	w.t.Counts["shards_reporting"] = 1
 }
 
 // one executes and judges a single case.
@@ -422,9 +430,16 @@ func parent(r *core.Run) {
 			if min == 0 {
 				res[sec] = "cut before the first grid point completed"
 			} else {
-				res[sec] = fmt.Sprintf("grid points 0..%d of %d complete for every seed and configuration (last complete: %s; cut inside %s)", min-1, len(grid), grid[min-1], grid[min])
+				res[sec] = fmt.Sprintf("grid points 0..%d of %d complete for every seed and configuration: the 8 tail truncations and every operator and value at every offset < %d (last complete point: %s; cut inside %s)", min-1, len(grid), grid[min].Off, grid[min-1], grid[min])
+				if grid[min].Op == "tail" {
+					res[sec] = fmt.Sprintf("grid points 0..%d of %d complete (tail truncations only; cut inside %s)", min-1, len(grid), grid[min])
+				}
 			}
 		case "cross":
+			if min == 0 {
+				res[sec] = "cut before the first point (intact seeds under every format) completed"
+				break
+			}
 			res[sec] = fmt.Sprintf("points 0..%d of %d complete (point 0 = intact seeds, point k = truncation to k-1 bytes); cut inside point %d", min-1, crossTrunc+1, min)
 		default:
 			res[sec] = "cut"
@@ -437,6 +452,15 @@ func parent(r *core.Run) {
 		}
 	}
 	r.Extra("completed_prefix", res)
+	n := r.Counter("shards_reporting")
+	for _, sec := range []string{"empty", "own", "cross"} {
+		if n > 0 && r.Counter("sections_done:"+sec) == n {
+			r.Section(sec)
+		}
+	}
+	if n > 0 && r.Counter("scan_done") == n {
+		r.Section("scan")
+	}
 }
 
 // ---------------------------------------------------------------------------
